@@ -248,6 +248,8 @@ class Interp(StmtMixin, ExprMixin, CallMixin, BuiltinMixin, OMapMixin, EngineBas
             self.assume(lift(con.requires(c0), TBool))
         if con.entry_assume is not None:
             self.assume(lift(con.entry_assume(c0), TBool))
+            for text in (con.assumes or ["(undocumented entry assumption)"]):
+                self.res.assumed_used.add(f"assumed at entry of {con.qualname.split(':')[-1]}: {text}")
         for k, v in h0._heap.items():
             self.st.heap.setdefault(k, v)
         entry_alloc = self.st.alloc
